@@ -8,7 +8,8 @@ ItemsQuick == { <<3, 8>>, <<3, 10>>, <<2, 7>> }
 PfvSmall   == { <<2, 7, 18>>, <<3, 8, 0>>, <<3, 9, 0>>, <<3, 10, 0>>, <<3, 10, 2>> }
 RelOne     == { <<5, 10>> }
 TreeSelWide == { [kind |-> "ver", var |-> "python_version", op |-> ">=", rel |-> <<3, 8>>, rev |-> FALSE],
-                 [kind |-> "ver", var |-> "python_full_version", op |-> "<", rel |-> <<3, 10>>, rev |-> TRUE],
+                 [kind |-> "ver", var |-> "python_full_version", op |-> "<=", rel |-> <<3, 10>>, rev |-> TRUE],
+                 [kind |-> "ver", var |-> "python_full_version", op |-> "<", rel |-> <<3, 8>>, rev |-> FALSE],
                  [kind |-> "str", var |-> "os_name", op |-> "!=", lit |-> <<"a">>, rev |-> FALSE],
                  [kind |-> "str", var |-> "os_name", op |-> "!=", lit |-> <<"b">>, rev |-> FALSE],
                  [kind |-> "str", var |-> "os_name", op |-> "in", lit |-> <<"a", "b">>, rev |-> FALSE],
